@@ -256,7 +256,11 @@ def run(ctx):
             kind = "dyadic"
         ctx.count("seq_init:" + init_kind)
         ctx.count("seq_N:%d" % N)
-        states = [state_of(g)]
+        try:
+            states = [state_of(g)]
+        except Exception as e:
+            ctx.fail("raises", "reading g[a] / payoff_profile_array of a freshly built game raised %r" % (e,), {"init": init_kind, "nums": nums, "ops": []}, repr(e), None)
+            continue
         oracle_views(ctx, g, ref, {"init": init_kind, "nums": nums, "ops": []}, Fraction(0))
         ops_lit, ops_desc = [], []
         nops = rng.randrange(0, 5)
@@ -306,6 +310,11 @@ def run(ctx):
                 except (ValueError, IndexError) as e:
                     g2 = None
                     ctx.count("seq_rejected:" + type(e).__name__)
+                    if o == "del" and cur_nums[pidx % N] >= 2:
+                        ctx.fail("delete_action_rejected", "delete_action raised on a valid player index / action that leaves every player an action: %r" % (e,),
+                                 {"init": init_kind, "nums": nums, "ops": ops_desc}, repr(e), "a game without that action")
+                if g2 is not None and o == "baddel":
+                    ctx.fail("delete_action_accepts_invalid", "delete_action accepted an out-of-range player index or action", {"init": init_kind, "nums": nums, "ops": ops_desc}, list(g2.nums_actions), "ValueError/IndexError")
                 if g2 is not None:
                     j = pidx % N
                     ref = {tuple(a[:j]) + ((a[j] if a[j] < k else a[j] - 1),) + tuple(a[j + 1:]): v for a, v in ref.items() if a[j] != k}
@@ -316,15 +325,19 @@ def run(ctx):
                 pay = [Fraction(t) if "." not in t and "e" not in t.lower() else frac(float(t)) for t in toks[1 + n_:]]
                 gam_cases.append(tup(gamelit(game_arrays(g)), tup("%d%%nat" % n_, natlist(nums_), qlist(pay))))
                 gam_meta.append({"nums": list(cur_nums), "string": s[:200]})
-                if rng.random() < 0.5:
-                    g2 = GAMReader.from_string(s)
-                else:
-                    with tempfile.TemporaryDirectory() as td:
-                        path = os.path.join(td, "g.gam")
-                        W.call("to_gam(file)", game_arrays(g), lambda: to_gam(g, path), ops_desc)
-                        g2 = from_gam(path)
                 ops_lit.append("OGam")
                 ops_desc.append(["gam"])
+                try:
+                    if rng.random() < 0.5:
+                        g2 = GAMReader.from_string(s)
+                    else:
+                        with tempfile.TemporaryDirectory() as td:
+                            path = os.path.join(td, "g.gam")
+                            W.call("to_gam(file)", game_arrays(g), lambda: to_gam(g, path), ops_desc)
+                            g2 = from_gam(path)
+                except Exception as e:
+                    ctx.fail("gam_roundtrip_raises", "from_gam(to_gam(g)) raised %r" % (e,), {"init": init_kind, "nums": nums, "ops": ops_desc, "string": s[:300]}, repr(e), "the same game")
+                    g2 = None
             elif o == "players":
                 g2 = W.call("NormalFormGame(players)", game_arrays(g), lambda: NormalFormGame(list(g.players)), ops_desc)
                 ops_lit.append("OPlayers")
@@ -355,8 +368,15 @@ def run(ctx):
                 break
             g = g2
             cur_nums = list(g.nums_actions)
-            states.append(state_of(g))
+            try:
+                states.append(state_of(g))
+            except Exception as e:
+                ctx.fail("raises", "reading g[a] / payoff_profile_array raised %r" % (e,), {"init": init_kind, "nums": nums, "ops": ops_desc}, repr(e), None)
+                states = None
+                break
             oracle_views(ctx, g, ref, {"init": init_kind, "nums": nums, "ops": ops_desc}, tol)
+        if states is None:
+            continue
         seq_cases.append(tup(qlit(tol), "(" + init + ")", clist(ops_lit, "op Q"), "[" + "; ".join(statelit(s) for s in states) + "]"))
         seq_meta.append({"init": init_kind, "nums": nums, "kind": kind, "ops": ops_desc})
         ctx.case(("seq", si, init_kind, tuple(nums), repr(ops_desc)), nontrivial=nontriv(nums) or (N >= 2 and max(nums) >= 2 and len(ops_desc) > 0),
@@ -400,7 +420,13 @@ def run(ctx):
             for opp in opps:
                 arg = None if N == 1 else (opp[0] if N == 2 else opp)
                 mixed = any(not isinstance(a, int) for a in opp)
-                pv = W.call("Player.payoff_vector", GA, lambda: p.payoff_vector(arg))
+                try:
+                    pv = W.call("Player.payoff_vector", GA, lambda: p.payoff_vector(arg))
+                    if np.shape(pv) != (nums[i],):
+                        raise ValueError("payoff_vector has shape %r" % (np.shape(pv),))
+                except Exception as e:
+                    ctx.fail("raises", "payoff_vector raised / returned a wrong shape on a valid opponent profile: %r" % (e,), {"data": data, "player": i, "opponents": opp}, repr(e), "a vector of length %d" % nums[i])
+                    continue
                 pvq = [frac(x) for x in np.asarray(pv).tolist()]
                 exp = exp_payoffs(data, N, nums, i, opp)
                 ident = ("pv", tuple(nums), kind, i, repr(opp))
@@ -414,9 +440,14 @@ def run(ctx):
                     pert = None
                     if rng.random() < 0.3:
                         pert = np.array([rng.randrange(-8, 9) / 8.0 for _ in range(nums[i])])
-                    brs = W.call("Player.best_response(tie_breaking=False)", GA,
-                                 lambda: p.best_response(arg, tie_breaking=False, tol=tolv, payoff_perturbation=pert))
-                    br = W.call("Player.best_response", GA, lambda: p.best_response(arg, tol=tolv, payoff_perturbation=pert))
+                    try:
+                        brs = W.call("Player.best_response(tie_breaking=False)", GA,
+                                     lambda: p.best_response(arg, tie_breaking=False, tol=tolv, payoff_perturbation=pert))
+                        br = W.call("Player.best_response", GA, lambda: p.best_response(arg, tol=tolv, payoff_perturbation=pert))
+                    except Exception as e:
+                        ctx.fail("raises", "best_response raised on valid arguments (tol >= 0): %r" % (e,),
+                                 {"data": data, "player": i, "opponents": opp, "tol": tolv, "perturbation": pert}, repr(e), "a best response")
+                        continue
                     tq = TOL if tolv is None else frac(tolv)
                     vals = [e + (frac(pert[k]) if pert is not None else 0) for k, e in enumerate(exp)]
                     ebrs = [k for k in range(nums[i]) if vals[k] >= max(vals) - tq]
@@ -430,7 +461,11 @@ def run(ctx):
                                    natlist(brs), "%d%%nat" % int(br)))
                     owns = list(range(nums[i])) + [dyadic_simplex(rng, nums[i])]
                     for own in owns if not big else owns[-2:]:
-                        r = bool(W.call("Player.is_best_response", GA, lambda: p.is_best_response(own, arg, tol=tolv)))
+                        try:
+                            r = bool(W.call("Player.is_best_response", GA, lambda: p.is_best_response(own, arg, tol=tolv)))
+                        except Exception as e:
+                            ctx.fail("raises", "is_best_response raised on valid arguments: %r" % (e,), {"data": data, "player": i, "own": own, "opponents": opp, "tol": tolv}, repr(e), None)
+                            continue
                         val = exp[own] if isinstance(own, int) else sum(frac(x) * e for x, e in zip(own.tolist(), exp))
                         er = val >= max(exp) - tq
                         if r != er:
@@ -449,7 +484,11 @@ def run(ctx):
         nl = []
         for prof in profs:
             for tolv in (None, 1.0):
-                r = bool(W.call("NormalFormGame.is_nash", GA, lambda: g.is_nash(prof, tol=tolv)))
+                try:
+                    r = bool(W.call("NormalFormGame.is_nash", GA, lambda: g.is_nash(prof, tol=tolv)))
+                except Exception as e:
+                    ctx.fail("raises", "is_nash raised on a valid profile: %r" % (e,), {"data": data, "profile": prof, "tol": tolv}, repr(e), None)
+                    continue
                 tq = TOL if tolv is None else frac(tolv)
                 er = True
                 for i in range(N):
